@@ -396,6 +396,17 @@ def run_framing(cases):
     async def one(lines, tail, sizes, listen=False):
         data, desc = build_stream(lines, tail)
         evs = []
+        # what each well-formed line says: a delivered message that does not say exactly that is not
+        # the line the child wrote (reported as line 0, which no stream has)
+        said = {}
+        for i, (kind, text, _term) in enumerate(lines, 1):
+            if kind in WF:
+                said[i] = json.loads(line_text(kind, i, text))
+
+        def mark(m):
+            k, mk = msg_tag(m)
+            d = m.model_dump(exclude_none=True) if hasattr(m, "model_dump") else m
+            return mk if (mk in said and d == said[mk]) or mk not in said else 0
         with seam() as procs:
             client = StdioClient(params())
             async with client:
@@ -419,12 +430,12 @@ def run_framing(cases):
                         proc.stdout.feed(chunk)
                         got, gotn = [], []
                         await _settle(client, got, gotn, heard)
-                        evs.append({"e": "Chunk", "n": n, "delivered": [msg_tag(m)[1] for m in got], "notified": [msg_tag(m)[1] for m in gotn],
+                        evs.append({"e": "Chunk", "n": n, "delivered": [mark(m) for m in got], "notified": [mark(m) for m in gotn],
                                     "kinds": [msg_tag(m)[0] for m in got]})
                     proc.stdout.eof()
                     got, gotn = [], []
                     await _settle(client, got, gotn, heard)
-                    evs.append({"e": "Eof", "n": 0, "delivered": [msg_tag(m)[1] for m in got], "notified": [msg_tag(m)[1] for m in gotn]})
+                    evs.append({"e": "Eof", "n": 0, "delivered": [mark(m) for m in got], "notified": [mark(m) for m in gotn]})
                     ltg.cancel_scope.cancel()
         rec = dict(desc)
         rec["ev"] = evs
@@ -464,12 +475,17 @@ def make_item(shape, n, text, rng):
         big = dict(payload, blob="x" * 70000)
         return JSONRPCRequest(jsonrpc="2.0", id="i%d" % n, method="tools/call", params=big), {"jsonrpc": "2.0", "id": "i%d" % n, "method": "tools/call", "params": big}
     if shape == "typedReq":
+        if n % 2:
+            # the version member left to the class default
+            return JSONRPCRequest(id="i%d" % n, method="tools/call", params=payload), {"jsonrpc": "2.0", "id": "i%d" % n, "method": "tools/call", "params": payload}
         return JSONRPCRequest(jsonrpc="2.0", id="i%d" % n, method="tools/call", params=payload), {"jsonrpc": "2.0", "id": "i%d" % n, "method": "tools/call", "params": payload}
     if shape == "typedNotif":
         if n % 2:
             return JSONRPCNotification(jsonrpc="2.0", method="notifications/x", params=None), {"jsonrpc": "2.0", "method": "notifications/x"}
         return JSONRPCNotification(jsonrpc="2.0", method="notifications/x", params=payload), {"jsonrpc": "2.0", "method": "notifications/x", "params": payload}
     if shape == "typedResp":
+        if n % 2 == 0:
+            return JSONRPCResponse(id=n, result=payload), {"jsonrpc": "2.0", "id": n, "result": payload}
         return JSONRPCResponse(jsonrpc="2.0", id=n, result=payload), {"jsonrpc": "2.0", "id": n, "result": payload}
     if shape == "typedErr":
         e = {"code": -32000 - n, "message": text, "data": payload}
